@@ -71,6 +71,14 @@ def run(ck):
           "with (N, |rotated|) = %s a file is deleted although the limit is <= 0" % bad[:3], key="removeOldFiles|deletes-when-unlimited")
     # ---- O3: loop condition
     loops = [l for l in find_loops(ro) if any(a.get("id") == l["id"] for a in ro.ancestors(removes[0]))]
+    if not loops:
+        # one removal per call: the count only ever goes down by one per rotation
+        callers = [(f_, c_) for f_ in S.m.values() for c_ in S.calls_to(f_, "removeOldFiles") if f_.id != ro.id]
+        in_loop = [1 for f_, c_ in callers if enclosing_loops(f_, c_)]
+        ck.ob("C06-O3", sitestr(ro, removes[0]), False if not in_loop else None,
+              "retention removes at most one file per rotation: a directory that holds more than N files (limit lowered between runs, 'keep everything' replaced by a limit, "
+              "a failed removal earlier) is never brought down to N - every rotation adds one and removes one", key="removeOldFiles|count-bound")
+        return
     ck.require(len(loops) == 1 and loops[0].get("k") in ("while", "for"), "deletion loop not recognised")
     loop = loops[0]
     cond = loop.get("cond")
